@@ -13,8 +13,10 @@
    are compared with the line.
    VIOL (C02): a request dispatched, or a reply-producing frame acted upon, before its last byte was delivered
    (early); a complete reply-producing frame still unprocessed when the server asks for more (lazy); a dispatch
-   that is not the next frame of the stream (misparse); the server abandoning the stream (abandoned); a final
-   observation that differs from the unsegmented run's (final).
+   that is not the next frame of the stream (misparse); outcomes that differ between deliveries of the same
+   bytes: the server abandoning a stream it consumes when unsegmented (abandoned), consuming a stream it drops
+   when unsegmented (whole-abandoned), a final observation that differs from the unsegmented run's (final) or
+   from the first run of the same session (differs).
    DRIFT: bookkeeping (counts out of range, frames / total mismatch), fork bytes on disk differing from the
    model at an ask (the statement does not constrain intermediate disk contents), a handler that did not
    return within the harness's time limit. *)
@@ -23,15 +25,19 @@ EXTENDS Stream, Json
 VARIABLES l,       \* next line of the log
           cur,     \* the current run's world line
           ndisp,   \* dispatches seen in the current run
-          bad      \* the current run has been reported already
+          bad,     \* the current run has been reported already
+          first,   \* session -> outcome [done, obs] of the first run of that session in this log
+          okSess,  \* sessions of which some run was consumed to the end
+          stuck    \* sessions whose unsegmented reference run was not consumed to the end
 
 Log == ndJsonDeserialize("log.ndjson")
 
-tvars == <<vars, l, cur, ndisp, bad>>
+tvars == <<vars, l, cur, ndisp, bad, first, okSess, stuck>>
 
 NoWorld == [run |-> 0, sess |-> "", conn |-> "", cls |-> "", total |-> 0, segs |-> <<>>, src |-> ""]
 
 Init == /\ l = 1 /\ cur = NoWorld /\ ndisp = 0 /\ bad = FALSE
+        /\ first = <<>> /\ okSess = {} /\ stuck = {}
         /\ InitWith(<<>>)
 
 Report(kind, e, what, class, detail) ==
@@ -72,8 +78,12 @@ World ==
   /\ frames' = e.frames
   /\ delivered' = 0 /\ consumed' = 0 /\ events' = <<>> /\ asked' = TRUE /\ dead' = FALSE
   /\ cur' = e /\ ndisp' = 0
+  /\ UNCHANGED <<first, okSess>>
+  /\ stuck' = IF e.refd # e.total THEN stuck \cup {e.sess} ELSE stuck
   /\ IF TotalOf(e.frames) # e.total
        THEN Report("DRIFT", e, "bookkeeping", "frames", "frame lengths do not add up to the stream length") /\ bad' = TRUE
+     ELSE IF ~e.refstable \/ e.reftimeout
+       THEN Report("DRIFT", e, "reference", "world", "the unsegmented run is not reproducible or did not return") /\ bad' = TRUE
        ELSE bad' = FALSE
 
 AskEv ==
@@ -89,11 +99,11 @@ AskEv ==
       exp == [hs |-> xhs, reg |-> xreg, nd |-> xnd, wrote |-> xwrote, data |-> xdata, rsrc |-> xrsrc]
   IN
   /\ e.op = "ask"
-  /\ UNCHANGED <<cur, ndisp>>
+  /\ UNCHANGED <<cur, ndisp, first, okSess, stuck>>
   /\ IF e.d < delivered \/ e.d > Total
        THEN /\ (~bad => Report("DRIFT", e, "bookkeeping", "count", "delivered byte count out of range"))
             /\ bad' = TRUE /\ UNCHANGED vars
-       ELSE /\ DeliverEager(e.d)
+       ELSE /\ DeliverEagerEv(e.d, ev)
             /\ IF bad THEN bad' = bad
                ELSE IF early THEN Report("VIOL", e, "early", "ask", [expected |-> exp]) /\ bad' = TRUE
                ELSE IF lazy THEN Report("VIOL", e, "lazy", "ask", [expected |-> exp]) /\ bad' = TRUE
@@ -106,7 +116,7 @@ DispEv ==
   IN
   /\ e.op = "disp"
   /\ ndisp' = ndisp + 1
-  /\ UNCHANGED <<vars, cur>>
+  /\ UNCHANGED <<vars, cur, first, okSess, stuck>>
   /\ IF bad THEN bad' = bad
      ELSE IF i = 0 \/ frames[i].ty # e.ty \/ frames[i].id # e.id
        THEN Report("VIOL", e, "misparse", "disp", [frame |-> IF i = 0 THEN [k |-> "none"] ELSE frames[i]]) /\ bad' = TRUE
@@ -114,35 +124,55 @@ DispEv ==
        THEN Report("VIOL", e, "early", "disp", [frame |-> frames[i], frameEnd |-> End(i)]) /\ bad' = TRUE
      ELSE bad' = bad
 
+ClassAt(d) == LET i == InsideFrame(d) IN
+              IF i # 0 /\ Atomic(frames[i]) THEN "split-" \o frames[i].k
+              ELSE IF i # 0 THEN "inside-" \o frames[i].k ELSE "boundary"
+
+(* The outcome of a run is whether the stream was consumed to the end and the final observation.  Outcomes of
+   different segmentations of the same bytes must be equal: each run is compared with the unsegmented run (which
+   may itself be the one that was dropped) and with the first run of the same session in the log. *)
 EndEv ==
   LET e == Log[l]
-      i == InsideFrame(e.d)
-      class == IF i # 0 /\ Atomic(frames[i]) THEN "split-" \o frames[i].k
-               ELSE IF i # 0 THEN "inside-" \o frames[i].k ELSE "boundary"
+      done == e.d = Total
+      refdone == cur.refd = Total
+      outc == [done |-> done, obs |-> e.obs]
+      hasFirst == cur.sess \in DOMAIN first
   IN
   /\ e.op = "end"
-  /\ UNCHANGED <<cur, ndisp>>
+  /\ UNCHANGED <<cur, ndisp, stuck>>
   /\ IF e.setup # ""
        THEN /\ (~bad => Report("DRIFT", e, "setup", "end", "the helper control connection of a transfer session failed"))
-            /\ bad' = TRUE /\ UNCHANGED vars
+            /\ bad' = TRUE /\ UNCHANGED <<vars, first, okSess>>
      ELSE IF e.timeout
        THEN /\ (~bad => Report("DRIFT", e, "timeout", "end", "handler did not return in time"))
-            /\ bad' = TRUE /\ UNCHANGED vars
+            /\ bad' = TRUE /\ UNCHANGED <<vars, first, okSess>>
      ELSE IF e.d < delivered \/ e.d > Total
        THEN /\ (~bad => Report("DRIFT", e, "bookkeeping", "count", "delivered byte count out of range"))
-            /\ bad' = TRUE /\ UNCHANGED vars
+            /\ bad' = TRUE /\ UNCHANGED <<vars, first, okSess>>
      ELSE /\ DeliverEager(e.d)
+          /\ okSess' = IF done THEN okSess \cup {cur.sess} ELSE okSess
           /\ IF bad THEN bad' = bad
-             ELSE IF e.d < Total
-               THEN Report("VIOL", e, "abandoned", class, [at |-> e.d, total |-> Total, err |-> e.err]) /\ bad' = TRUE
+             ELSE IF ~done /\ refdone
+               THEN Report("VIOL", e, "abandoned", ClassAt(e.d), [at |-> e.d, total |-> Total, err |-> e.err]) /\ bad' = TRUE
+             ELSE IF done /\ ~refdone
+               THEN Report("VIOL", e, "whole-abandoned", ClassAt(cur.refd),
+                           [wholeStoppedAt |-> cur.refd, total |-> Total, wholeErr |-> cur.referr]) /\ bad' = TRUE
              ELSE IF e.obs # cur.ref
-               THEN Report("VIOL", e, "final", "end", [reference |-> cur.ref]) /\ bad' = TRUE
+               THEN Report("VIOL", e, "final", "end", [reference |-> cur.ref, refd |-> cur.refd]) /\ bad' = TRUE
+             ELSE IF hasFirst /\ first[cur.sess] # outc
+               THEN Report("VIOL", e, "differs", "first-run", [firstRun |-> first[cur.sess]]) /\ bad' = TRUE
              ELSE bad' = bad
+          /\ first' = IF hasFirst \/ bad' THEN first ELSE first @@ (cur.sess :> outc)   \* first run not itself reported
 
 TraceNext == /\ l <= Len(Log)
              /\ (World \/ AskEv \/ DispEv \/ EndEv)
              /\ l' = l + 1
              /\ TLCSet(1, l')
+             /\ (l = Len(Log) =>       \* sessions the server never consumed under any delivery: nothing was compared
+                   \A x \in stuck' \ okSess' :
+                     PrintT("DRIFT " \o ToJson([prop |-> "C02", run |-> 0, line |-> l, op |-> "eof", kind |-> "unconsumed",
+                                                class |-> "session", sess |-> x, src |-> "", segs |-> <<>>, step |-> [op |-> "eof"],
+                                                detail |-> "no delivery of this session was consumed to the end"])))
 
 Consumed == TLCGet(1) = Len(Log) + 1
 =============================================================================
